@@ -89,17 +89,23 @@ def gen_nl_model(rng):
     while True:
         m = _gen_nl_model(rng)
         used = {i for b in m['blocks'] for i in b['ins']}
-        if all(v in used for v in m['Z'] + m['U']):
+        if all(v in used for v in m['Z'] + m['U'] + m['Pm']):
             return m
 
 
 def _gen_nl_model(rng):
-    """exogenous Z, unknowns U, 1-3 intermediate blocks, one target per unknown dominated by 8 * 'its' unknown"""
-    nz, nu = rng.choice([1, 1, 2]), rng.choice([1, 2, 2, 3])
+    """exogenous Z, unknowns U, parameters Pm (never shocked), 1-2 intermediate blocks, one target per unknown dominated by 8 * 'its' unknown; sometimes a block that reads
+    parameters only (none of its inputs is ever perturbed)"""
+    nz, nu, npm = rng.choice([1, 1, 2]), rng.choice([1, 2, 2, 3]), rng.choice([0, 1, 1])
     Z = list(range(nz))
     U = list(range(nz, nz + nu))
-    nxt = nz + nu
-    avail, blocks = Z + U, []
+    Pm = list(range(nz + nu, nz + nu + npm))
+    nxt = nz + nu + npm
+    avail, blocks = Z + U + Pm, []
+    if Pm and rng.random() < 0.5:
+        blocks.append(dict(name='par', outs=[(nxt, gen_expr(rng, Pm, 2))]))
+        avail = avail + [nxt]
+        nxt += 1
     for b in range(rng.randint(1, 2)):      # at most two levels of quadratic blocks below the (quadratic) targets: exact values stay below ~500 bits
         ins = rng.sample(avail, rng.randint(1, min(3, len(avail))))
         outs = []
@@ -121,10 +127,12 @@ def _gen_nl_model(rng):
             variables(e, ins)
         b['ins'] = sorted(ins)
     T = rng.randint(3, 6)
-    calib = {v: rng.choice([0.5, 1.0, 1.5, -1.0, 0.75, 1.25]) for v in Z + U}
+    val = lambda: rng.choice([0.5, 1.0, 1.5, -1.0, 0.75, 1.25])
+    calib = {v: val() for v in Z + U + Pm}
+    calib0 = {v: (val() if v in Pm or rng.random() < 0.5 else calib[v]) for v in Z + U + Pm}      # a distinct initial steady state (used by some callers)
     size = rng.choice([2.0 ** -4, 2.0 ** -5, 2.0 ** -7])
     shocks = {z: [size * rng.choice([1.0, -1.0, 0.5, 0.0, 2.0]) for _ in range(T)] for z in Z if rng.random() < 0.8 or z == Z[0]}
-    return dict(blocks=blocks, Z=Z, U=U, Tg=Tg, T=T, N=nxt, calib=calib, shocks=shocks)
+    return dict(blocks=blocks, Z=Z, U=U, Pm=Pm, Tg=Tg, T=T, N=nxt, calib=calib, calib0=calib0, shocks=shocks)
 
 
 def write_module(tag, specs):
